@@ -168,12 +168,19 @@ def thresholds():
         raise F.FactError("write_empty_if_equal changed shape")
     rel2 = "sudachi/src/dic/read/u16str.rs"
     t2 = F.strip_comments(F.src(rel2))
+    # string_length_parser: one byte h; a second byte l is read iff h >= N; the length is ((h & 0x7F) << 8) | l, or h alone.
+    # The result may be built inside the returned tuple or bound to a local first, by `match` or `if let`.
     b = norm_ws(F.fn_body(t2, "string_length_parser", rel2))
-    m = re.fullmatch(r"let\(rest,length\)=le_u8\(input\)\?;let\(rest,opt_low\)=nom::combinator::cond\(length>=(\d+),le_u8\)\(rest\)\?;"
-                     r"Ok\(\(rest,matchopt_low\{Some\(low\)=>\(\(lengthasu16&0x7F\)<<8\)\|lowasu16,None=>lengthasu16,\},\)\)", b)
+    m = re.search(r"nom::combinator::cond\((\w+)>=(\d+),le_u8\)\(rest\)\?;", b)
     if not m:
         raise F.FactError("string_length_parser changed shape: %r" % b)
-    long_from = int(m.group(1))
+    long_from = int(m.group(2))
+    head = "let (rest, length) = le_u8(input)?; let (rest, opt_low) = nom::combinator::cond(length >= %d, le_u8)(rest)?; " % long_from
+    two, one = "((length as u16 & 0x7F) << 8) | low as u16", "length as u16"
+    value = ["match opt_low { Some(low) => %s, None => %s, }" % (two, one), "if let Some(low) = opt_low { %s } else { %s }" % (two, one)]
+    if SA.alpha_any(F.fn_body(t2, "string_length_parser", rel2),
+                    [head + "Ok((rest, %s))" % v for v in value] + [head + "let value = %s; Ok((rest, value))" % v for v in value]) < 0:
+        raise F.FactError("string_length_parser changed shape: %r" % b)
     b = norm_ws(F.fn_body(t2, "utf16_string_data", rel2))
     if not F.same_shape(F.fn_body(t2, "utf16_string_data", rel2), ("let(rest,length)=string_length_parser(input)?;iflength==0{returnOk((rest,&[]));}letnum_bytes=(length*2)asusize;"
              "ifrest.len()<num_bytes{returnErr(nom::Err::Failure(SudachiNomError::Utf16String));}let(data,rest)=rest.split_at(num_bytes);Ok((rest,data))")):
@@ -225,15 +232,29 @@ def shapes():
     # helper method of the file that is handed (word_info.pos_id, dict_id) (its body is read as if it stood in place).
     body = F.fn_body(t, "get_word_info_subset", rel)
     b = norm_ws(body)
-    # the lexicon may be bound to a local first
-    pres = ["let dict_id = id.dic(); let mut word_info: WordInfoData = self.lexicons[dict_id as usize].get_word_info(id.word(), subset)?.into(); if subset.contains(InfoSubset::POS_ID) { ",
-            "let dict_id = id.dic(); let lexicon = &self.lexicons[dict_id as usize]; let mut word_info: WordInfoData = lexicon.get_word_info(id.word(), subset)?.into(); if subset.contains(InfoSubset::POS_ID) { "]
+    # the lexicon may be bound to a local first; so may the dictionary number as an index (`let i = dict_id as usize;`), each
+    # use site then reads the local or repeats the cast; the re-based id may be bound before it is stored
     post = (" } if subset.contains(InfoSubset::SPLIT_A) { Self::update_dict_id(&mut word_info.a_unit_split, dict_id)?; }"
             " if subset.contains(InfoSubset::SPLIT_B) { Self::update_dict_id(&mut word_info.b_unit_split, dict_id)?; }"
             " if subset.contains(InfoSubset::WORD_STRUCTURE) { Self::update_dict_id(&mut word_info.word_structure, dict_id)?; } Ok(word_info.into())")
-    inline = ["let pos_id = word_info.pos_id as usize; if dict_id > 0 && pos_id >= self.num_system_pos { word_info.pos_id = (pos_id%s - self.num_system_pos + self.pos_offsets[dict_id as usize]) as u16; }" % c
-              for c in (" as usize", "")]
-    ok = SA.alpha_any(body, [pre + x + post for pre in pres for x in inline]) >= 0
+    def frames(bind, lex_idx):
+        start = "let dict_id = id.dic(); " + ("let dict_idx = dict_id as usize; " if bind else "")
+        return [start + "let mut word_info: WordInfoData = self.lexicons[%s].get_word_info(id.word(), subset)?.into(); if subset.contains(InfoSubset::POS_ID) { " % lex_idx,
+                start + "let lexicon = &self.lexicons[%s]; let mut word_info: WordInfoData = lexicon.get_word_info(id.word(), subset)?.into(); if subset.contains(InfoSubset::POS_ID) { " % lex_idx]
+    def rebasings(off_idx):
+        out = []
+        for c in (" as usize", ""):
+            e = "pos_id%s - self.num_system_pos + self.pos_offsets[%s]" % (c, off_idx)
+            guard = "let pos_id = word_info.pos_id as usize; if dict_id > 0 && pos_id >= self.num_system_pos { %s }"
+            out.append(guard % ("word_info.pos_id = (%s) as u16;" % e))
+            out.append(guard % ("let rebased = %s; word_info.pos_id = rebased as u16;" % e))
+        return out
+    pres = frames(False, "dict_id as usize") + frames(True, "dict_idx") + frames(True, "dict_id as usize")
+    whole = [pre + x + post for pre in frames(False, "dict_id as usize") for x in rebasings("dict_id as usize")]
+    for lex_idx in ("dict_idx", "dict_id as usize"):
+        for off_idx in ("dict_idx", "dict_id as usize"):
+            whole += [pre + x + post for pre in frames(True, lex_idx) for x in rebasings(off_idx)]
+    ok = SA.alpha_any(body, whole) >= 0
     if not ok:
         # a private helper method handed the stored POS id and the dictionary number, in either order
         m = re.search(r"word_info\.pos_id=self\.(\w+)\((word_info\.pos_id,dict_id|dict_id,word_info\.pos_id)\);", b)
